@@ -141,6 +141,58 @@ Section Verify.
     if Nat.eqb (pcm_count ctxs digests) (length proofs)
     then pcm_loop src height round ctxs digests proofs
     else false.
+  (* proofContextMap.Update with a section made by the section builder:
+       for every network type section whose next proof context changed:
+           res.pcMap[ntid] = the new context     (on a COPY of the map)
+       for every inactivated network type:       delete(res.pcMap, ntid)  (on a copy)
+     The receiver map is never written: Update is a function from a map value
+     to a map value. *)
+  Definition ctx_remove (ctxs : list (Z * list (option addrT))) (ntid : Z) :=
+    filter (fun kv => negb (fst kv =? ntid)%Z) ctxs.
+  Definition ctx_set (ctxs : list (Z * list (option addrT))) (kv : Z * list (option addrT)) :=
+    kv :: ctx_remove ctxs (fst kv).
+  Definition pcm_update (ctxs : list (Z * list (option addrT)))
+             (changed : list (Z * list (option addrT))) (inactivated : list Z) :=
+    fold_left ctx_remove inactivated (fold_left ctx_set changed ctxs).
+
+  (* a history over map VERSIONS: version 0 is the initial map, every Update
+     appends a version derived from an existing one; Verify / ProofContextFor
+     are asked of any version at any time *)
+  Inductive pcm_op :=
+  | PUpdate (from : nat) (changed : list (Z * list (option addrT))) (inactivated : list Z)
+  | PVerify (on : nat) (src : bytes) (height round : Z) (digests : list (Z * bytes))
+            (proofs : list (option (list (option sigT))))
+  | PHas (on : nat) (ntid : Z).
+
+  (* the verdict of an op (None for Update, or for a version that does not exist) *)
+  Definition pcm_answer (maps : list (list (Z * list (option addrT)))) (o : pcm_op) : option bool :=
+    match o with
+    | PUpdate _ _ _ => None
+    | PVerify on src h r dg pf =>
+        option_map (fun m => pcm_verify src h r m dg pf) (nth_error maps on)
+    | PHas on ntid =>
+        option_map (fun m => match ctx_for m ntid with Some _ => true | None => false end) (nth_error maps on)
+    end.
+
+  Definition pcm_step (maps : list (list (Z * list (option addrT)))) (o : pcm_op) :=
+    match o with
+    | PUpdate from ch inact =>
+        match nth_error maps from with
+        | Some m => maps ++ [pcm_update m ch inact]
+        | None => maps
+        end
+    | _ => maps
+    end.
+
+  Fixpoint pcm_run (maps : list (list (Z * list (option addrT)))) (ops : list pcm_op)
+    : list (option bool) :=
+    match ops with
+    | [] => []
+    | o :: r => pcm_answer maps o :: pcm_run (pcm_step maps o) r
+    end.
+
+  Definition pcm_versions (maps : list (list (Z * list (option addrT)))) (ops : list pcm_op) :=
+    fold_left pcm_step ops maps.
 End Verify.
 
 (* ------------------------------------------------------------------------
@@ -176,6 +228,7 @@ Definition bt_vals (vals : list (option nat)) : list (option baddr) := map (opti
 
 Definition bt_verify_part d vals idx s := verify_part baddr_eqb bt_recover d (bt_vals vals) idx s.
 Definition bt_verify d vals sigs := verify baddr_eqb bt_recover d (bt_vals vals) sigs.
+Definition bt_ctxs (ctxs : list (Z * list (option nat))) := map (fun kv => (fst kv, bt_vals (snd kv))) ctxs.
 Definition bt_part_session vals idx s ds := part_session baddr_eqb bt_recover (bt_vals vals) idx s ds.
 Definition bt_verify_session vals sigs ds := verify_session baddr_eqb bt_recover (bt_vals vals) sigs ds.
 Definition bt_pcm_verify src height round (ctxs : list (Z * list (option nat))) digests proofs :=
